@@ -28,3 +28,30 @@ Definition check1 (k : case1) : bool :=
           end
         else match r with ValueErr => true | Ok _ => false end
       else true).
+
+(* ---- N-d arrays ---- *)
+From Verif Require Import Lib.Axis C16.ModelNd.
+Record caseN := { n_m : pmode; n_d : direction; n_c : Q; n_cast : bool;
+                  n_ishape : list nat; n_arr : list Q; n_oshape : list nat; n_offs : list Z;
+                  n_out : impl_out }.
+
+(* (1) the in-place N-d model = implementation (outputs exactly, errors as enum);
+   (2) on admissible configurations the separable composition of 1-d resizes
+       gives the same array *)
+Definition checkN (k : caseN) : bool :=
+  let r := resizeN (n_m k) (n_d k) (n_c k) (n_cast k) (n_ishape k) (n_arr k) (n_oshape k) (n_offs k) in
+  match r, n_out k with
+  | Ok r, IOk r' => Qs_eq r' r
+  | ValueErr, IValueErr => true
+  | _, _ => false
+  end
+  && (let ok := if is_fwd (n_d k) then config_ok (n_m k) (n_ishape k) (n_oshape k) (n_offs k)
+                else config_ok (n_m k) (n_oshape k) (n_ishape k) (n_offs k) in
+      if ok && (n_cast k || negb (pmode_eqb (n_m k) PConstant))
+            && (is_fwd (n_d k) || negb (pmode_eqb (n_m k) PConstant) || Qeq_bool (n_c k) 0) then
+        match n_out k with
+        | IOk r' => Qs_eq r' (resize_sep (n_m k) (n_d k) (n_c k) (n_cast k)
+                                (n_ishape k) (n_oshape k) (n_offs k) (n_arr k))
+        | _ => false
+        end
+      else true).
